@@ -308,6 +308,9 @@ def check_b(ck, repo):
                     if isinstance(v, ast.Call) and (v is nd[0] or (isinstance(v.func, ast.Attribute) and v.func.attr == "astype" and isinstance(v.func.value, ast.Name))):
                         if v is nd[0]:
                             continue
+                    if isinstance(v, ast.Call) and isinstance(v.func, ast.Attribute) and v.func.attr == "astype" and v.func.value is nd[0]:
+                        continue
+                    if isinstance(v, ast.Call) and (v is nd[0] or (isinstance(v.func, ast.Attribute) and v.func.attr == "astype" and isinstance(v.func.value, ast.Name))):
                         nm = v.func.value.id
                         defs = [x for x in own_nodes(m.node) if isinstance(x, ast.Assign) and src_of(x.targets[0]) == nm]
                         if len(defs) == 1 and defs[0].value is nd[0]:
